@@ -85,6 +85,136 @@ def one_case(args):
     return {'seed': seed, 'cfg': cfg, 'preset': preset, 'programs': programs, 'shared': shared, 'results': results}
 
 
+def open_iterator_probe():
+    """a client that is in the middle of an iteration (keys in insertion order, sorted order, either
+    direction; Cache, FanoutCache, Index, Deque) is a client like any other: a write completed by ANOTHER
+    client after the iteration began is visible to every later call of the iterating client (real-time
+    precedence), and the iterating client's own writes need no more than the write lock"""
+    import os
+    import shutil
+    import tempfile
+    import diskcache
+    root = os.environ.get('VERIF_SCRATCH') or tempfile.gettempdir()
+    bad = []
+    makers = [
+        ('Cache iter', lambda d: diskcache.Cache(d, timeout=0.05), lambda c: iter(c)),
+        ('Cache reversed', lambda d: diskcache.Cache(d, timeout=0.05), lambda c: reversed(c)),
+        ('Cache iterkeys', lambda d: diskcache.Cache(d, timeout=0.05), lambda c: c.iterkeys()),
+        ('Cache iterkeys reverse', lambda d: diskcache.Cache(d, timeout=0.05), lambda c: c.iterkeys(reverse=True)),
+        ('FanoutCache iter', lambda d: diskcache.FanoutCache(d, shards=1, timeout=0.05), lambda c: iter(c)),
+        ('Index iter', lambda d: diskcache.Index(d), lambda c: iter(c)),
+        ('Index items', lambda d: diskcache.Index(d), lambda c: iter(c.items())),
+    ]
+    for name, make, start in makers:
+        d = tempfile.mkdtemp(prefix='c5it-', dir=root)
+        try:
+            a, b = make(d), make(d)
+            for i in range(5):
+                a['k%d' % i] = i
+            it = start(a)
+            first = next(it)
+            b['new'] = 1                      # completed by another client while the iteration is open
+            got = {}
+            try:
+                got['get'] = a['new'] if 'new' in a else None
+                got['len'] = len(a)
+                if name.startswith('Index'):
+                    got['own'] = 2            # Index writes wait for ever (retry): not tried, a pinned snapshot would hang the probe
+                else:
+                    a.set('own', 2)           # the iterating client's own write (no retry: a Timeout is reported, not waited out)
+                    got['own'] = b.get('own')
+            except Exception as e:  # noqa
+                got['raised'] = type(e).__name__
+            rest = list(it)
+            if got != {'get': 1, 'len': 6, 'own': 2}:
+                bad.append('%s: after next() on an open iteration, another client stored an item; the iterating client then sees %r '
+                           '(expected the item, 6 items, and its own write to succeed)' % (name, got))
+            if len(rest) + 1 < 5:
+                bad.append('%s: the open iteration lost keys: %r then %r' % (name, first, rest))
+            for c in (a, b):
+                try:
+                    (c.close if hasattr(c, 'close') else c.cache.close)()
+                except Exception:
+                    pass
+        except Exception as e:  # noqa
+            bad.append('%s: open-iterator probe raised %s: %s' % (name, type(e).__name__, str(e)[:100]))
+        finally:
+            shutil.rmtree(d, ignore_errors=True)
+    return bad
+
+
+def shared_attr_probe():
+    """threads sharing ONE Cache object also share its attributes: every store to an attribute of the
+    shared object is made a scheduling point (before and after the store), and len() / add() / len() from
+    three threads run under every schedule in which the first len() is preempted once and the second one
+    once.  Each len() must lie between the number of items whose add() had returned before it was called
+    and the number whose add() had been called before it returned."""
+    import shutil
+    import tempfile
+    import threading
+    import diskcache
+    from impl import Env, scratch_root
+    from sched import Scheduler
+    env = Env.get()
+
+    class YCache(diskcache.Cache):
+        def __setattr__(self, name, value):
+            h = env.rec.on_action
+            if h is not None and not name.startswith('_'):
+                h('attr', name)
+            super().__setattr__(name, value)
+            if h is not None and not name.startswith('_'):
+                h('attr', name)
+    bad = []
+    runs = 0
+    K = 9
+    for k0 in range(1, K + 1):
+        for k2 in range(1, K + 1):
+            d = tempfile.mkdtemp(prefix='c5sa-', dir=scratch_root())
+            env.core.sqlite3._timeout = 0
+            try:
+                env.rec.enabled = False
+                c = YCache(d, timeout=0)
+                c.add('p0', 0)
+                c.add('p1', 1)
+                env.rec.enabled = True
+                sch = Scheduler(env.rec)
+
+                def mk(cid):
+                    def prepare():
+                        c._con
+
+                    def execute(op):
+                        if op == 'len':
+                            return len(c)
+                        return c.add('x', 1, retry=True)
+                    return prepare, ['add' if cid == 1 else 'len'], execute
+                ok = sch.run({0: mk(0), 1: mk(1), 2: mk(2)}, [0] * k0 + [1] * 60 + [2] * k2 + [0] * 60 + [2] * 60, max_steps=2000)
+                runs += 1
+                ev = sch.events
+                call = {cid: st for st, cid, kind, i, r in ev if kind == 'call'}
+                ret = {cid: (st, r) for st, cid, kind, i, r in ev if kind == 'ret'}
+                if not ok or len(ret) != 3:
+                    bad.append('shared object, len | add | len with preemptions after %d and %d actions: the calls did not all finish' % (k0, k2))
+                else:
+                    for cid in (0, 2):
+                        floor = 2 + (1 if ret[1][0] < call[cid] and ret[1][1] is True else 0)
+                        ceil = 2 + (1 if call[1] < ret[cid][0] else 0)
+                        if not (floor <= ret[cid][1] <= ceil):
+                            bad.append('one Cache object shared by three threads, len() | add() | len() with the first len preempted after %d actions and the second after %d: '
+                                       'len() returned %r although %d item(s) had been added by calls that returned before it started' % (k0, k2, ret[cid][1], floor))
+                c.close()
+            except Exception as e:  # noqa
+                bad.append('shared-attribute probe (%d, %d) raised %s: %s' % (k0, k2, type(e).__name__, str(e)[:100]))
+            finally:
+                env.core.sqlite3._timeout = None
+                env.rec.enabled = True
+                shutil.rmtree(d, ignore_errors=True)
+            if len(bad) >= 2:
+                return bad, runs
+    return bad, runs
+
+
 def run(tier, seed, rng, known, replay):
     n_cases = 48 if tier == 'quick' else 160
     if replay:
@@ -109,6 +239,26 @@ def run(tier, seed, rng, known, replay):
                                               'preset': base.tag(c['preset']), 'programs': base.tag(c['programs']),
                                               'schedule': r['sched'], 'results': r['res'], 'acceptor': r['why']},
                                    'found_input': True, 'what': 'not linearizable: ' + r['why']})
+    if not replay:
+        sa_bad, sa_runs = shared_attr_probe()
+        runs += sa_runs
+        for v_ in sa_bad[:2]:
+            violations.append({'replay': {'property': 'C05', 'kind': 'shared-attribute-probe', 'acceptor': v_}, 'found_input': True, 'what': v_})
+        # in a fresh interpreter: this process has the harness shims installed, whose cursor wrapper reads
+        # result sets eagerly and would hide a cursor left open by the library
+        import json
+        import subprocess
+        import sys
+        code = ("import sys, os, json; sys.path.insert(0, %r); sys.path.insert(0, os.environ.get('VERIF_REPO', '/repo')); "
+                "from props import c05; print('PROBE' + json.dumps(c05.open_iterator_probe()))" % os.path.dirname(os.path.dirname(os.path.abspath(__file__))))
+        try:
+            pr = subprocess.run([sys.executable, '-c', code], capture_output=True, text=True, timeout=300)
+            line = [l for l in pr.stdout.split('\n') if l.startswith('PROBE')]
+            it_bad = json.loads(line[0][5:]) if line else ['open-iterator probe did not run: ' + (pr.stderr or pr.stdout)[-300:]]
+        except subprocess.TimeoutExpired:
+            it_bad = ['open-iterator probe: a call of the iterating client did not return within 300 s']
+        for v_ in it_bad[:2]:
+            violations.append({'replay': {'property': 'C05', 'kind': 'open-iterator-probe', 'acceptor': v_}, 'found_input': True, 'what': v_})
     return {
         'evaluations': runs, 'distinct_nontrivial': len(distinct),
         'rule': 'per seeded case: 2-3 clients x 1-3 calls (set/add/incr/get/[]/pop/delete/touch/in/len on 2 shared keys, inline and file-backed values), '
